@@ -22,6 +22,7 @@ import (
 	"context"
 	"encoding/binary"
 	"encoding/hex"
+	"encoding/json"
 	"errors"
 	"fmt"
 	"io"
@@ -225,7 +226,9 @@ func (r *rng) c19Padded(fs []c19field, length int) string {
 }
 
 var c19Malformed = []string{"", " ", `{"a":`, `[1,2]`, `nope`, `{"a":1`, `{"a":1,}`, `7`, `null`, `"str"`, `{"a":tru}`, "\t",
-	`{"a":nu`, `{"a":t`, `{"k":1,"b":fal`, `{"a":[tru`, `{"a":fals`, `{"a":"x`}
+	`{"a":nu`, `{"a":t`, `{"k":1,"b":fal`, `{"a":[tru`, `{"a":fals`, `{"a":"x`,
+	// something behind a complete object: a second object, stray text, a comma
+	`{"a":1}{"a":2}`, `{"a":1} xyz`, `{"a":1},`, `{"a":1} {"b":2}`, `{"a":1}]`}
 
 type c19case struct {
 	lines    []c19line
@@ -488,6 +491,16 @@ func c19RawLines(input []byte) [][]byte {
 }
 
 func c19Parse(tok []byte) string {
+	// a line is one JSON value and nothing else (judged by encoding/json, not by the parser under test, which stops
+	// behind the first value of a line)
+	if !json.Valid(tok) {
+		// a line cut inside a literal still has to be told apart: the library reports its own end-of-input cause
+		d0 := &birch.Document{}
+		if err := bson.UnmarshalExtJSON(tok, false, d0); err != nil && pkgerrors.Cause(err) == io.EOF {
+			return "eoferr"
+		}
+		return "malformed"
+	}
 	doc := &birch.Document{}
 	err := bson.UnmarshalExtJSON(tok, false, doc)
 	if err != nil {
